@@ -1,0 +1,9 @@
+//go:build verif
+
+package bft
+
+// This file exists only under the `verif` build tag (external verification harness in /verif).
+
+// VerifSetProposalVoteDeadline() sets the approve-list proposal voting deadline that Start() would set on a NEW_HEIGHT
+// reset; a harness that steps the BFT without running Start() uses it to put a node in the same governance-vote mode
+func (b *BFT) VerifSetProposalVoteDeadline(unixMilli int64) { b.deadlineMs.Store(unixMilli) }
